@@ -20,13 +20,14 @@
      TaskFailure): refinement up to resource exhaustion, the resource side being what C03 / C04 /
      C05 state.  [PUnspec] results are outside the claim.
 
-   compile_correct is PROVED FOR FOUR NESTED FRAGMENTS of the language (second half of this file:
-   C01_compile_correct_f1 / _f2 / _f3 / _f4, C01_fragments_well_scoped), against the merged models
+   compile_correct is PROVED FOR SIX NESTED FRAGMENTS of the language (second half of this file:
+   C01_compile_correct_f1 .. _f5, C01_compile_correct_f6_partial, C01_fragments_well_scoped), against the merged models
    Compiler.compile, C15Link.to_vm, Vm.run and RefSem.eval_program: programs that consist of `main`
-   alone, over integer / nil globals, with arithmetic, comparison and boolean operators, global
-   assignment, IfTrue / IfFalse / IfElse, Composite and While, nested at will (the while-language); the
-   resource side is explicit (hypotheses on expression depth and budget).  For everything else
-   (reals, locals, Repeat / ForEach, calls, tables, closures, natives) the claim is
+   alone, over integer / nil globals and local variables of main, with arithmetic, comparison and boolean operators, global
+   assignment, IfTrue / IfFalse / IfElse, Composite, While and Repeat without a loop variable, nested at will
+   (the while-language); the resource side is explicit (hypotheses on expression depth and budget).  For
+   everything else (reals, Repeat with a loop variable or a declaring body, ForEach, calls, tables, closures,
+   natives) the claim is
    carried by the differential check C01Check (the real compiler + VM against eval_program). *)
 From Coq Require Import List NArith ZArith Bool Arith String Ascii.
 Import ListNotations.
@@ -583,7 +584,204 @@ Example C01_compile_correct_f4_instance :
   end.
 Proof. vm_compute. repeat split; reflexivity. Qed.
 
-(* the four fragments are nested, and every program of them is in the class property C01 quantifies
+(* ==== fragment F5: the while-language with local variables of main ====
+   F4 plus  SetVar x e  and  ReadVar x  on locals (C01SimDefs5.in_f5): a SetVar card directly in main's
+   card list declares the local x when none exists (shadowing a global x) and assigns it otherwise;
+   inside If / While / Composite a SetVar may only assign a local that exists (the compiler opens no
+   scope there; RefScope.well_scoped forbids conditional declarations too).  A ReadVar names the most
+   recent local of that name, else the global.  Locals live in the value stack (slot i = the i-th
+   declared local, below the temporaries), RefSem's cells on the other side; the end of main pops
+   them before Exit.  depth_ok5: locals of main + expression depth + 2 < 256.  Globals are observed as
+   before; `main_gnames` are the names that are used as globals. *)
+From Cao Require C01SimDefs5 C01SimF5.
+
+Theorem C01_compile_correct_f5 :
+  forall (F : Vm.fops) (bld : Vm.build) (M : module) (B : Compiler.compiled) (fuel : nat) (host : list str) (o : obs),
+    C01SimDefs5.in_f5 M = true ->
+    C01SimDefs5.depth_ok5 (C01SimDefs.main_cards M) = true ->
+    Compiler.compile M CompilerProofs.default_options = Compiler.COk B ->
+    (N.of_nat (List.length (Compiler.p_ids B)) < Bits.two32)%N ->
+    (N.of_nat (List.length (Compiler.p_bytecode B)) < 2147483648)%N ->
+    eval_program fuel M host = PObs o ->
+    exists N0 : nat, forall budget : nat, N0 <= budget ->
+      let r := Vm.run F bld budget (C15Link.to_vm B) Vm.fresh_state in
+      C01SimDefs.vm_kind (fst r) = Some (ob_kind o) /\
+      forall n, C01SimDefs.no_collision (C01SimDefs5.main_gnames [] (C01SimDefs.main_cards M)) n ->
+        option_map C01SimDefs.vm_tree (Vm.read_var_by_name (C15Link.to_vm B) (snd r) n) = assoc n (ob_globals o).
+Proof. exact C01SimF5.compile_correct_f5. Qed.
+Print Assumptions C01_compile_correct_f5.
+
+(* an instance: simple_while_test of the crate's test suite (a local counter, a global result), a
+   local that shadows a global, an assignment to a local inside a conditional inside a loop, and a
+   read of an unassigned global at the end *)
+Definition f5_example : module :=
+  prog [("main", fn []
+    [CSetVar (s "i") (CScalarInt 42);
+     CSetGlobalVar (s "pooh") (CScalarInt 0);
+     CBin BWhile (CReadVar (s "i"))
+       (CComposite (s "body")
+          [CSetGlobalVar (s "pooh") (CBin BAdd (CScalarInt 1) (CReadVar (s "pooh")));
+           CSetVar (s "i") (CBin BSub (CReadVar (s "i")) (CScalarInt 1))]);
+     CSetGlobalVar (s "x") (CScalarInt 7);
+     CSetVar (s "x") (CBin BMul (CReadVar (s "x")) (CScalarInt 6));       (* declares local x = 42, shadows global x *)
+     CSetVar (s "acc") (CScalarInt 0);
+     CSetVar (s "k") (CScalarInt 0);
+     CBin BWhile (CBin BLess (CReadVar (s "k")) (CScalarInt 5))
+       (CComposite (s "")
+          [CTri TIfElse (CBin BEquals (CBin BMul (CBin BSub (CReadVar (s "k")) (CScalarInt 2)) (CBin BSub (CReadVar (s "k")) (CScalarInt 4))) (CScalarInt 0))
+             (CSetVar (s "acc") (CBin BAdd (CReadVar (s "acc")) (CReadVar (s "x"))))
+             (CSetVar (s "acc") (CBin BAdd (CReadVar (s "acc")) (CScalarInt 1)));
+           CSetVar (s "k") (CBin BAdd (CReadVar (s "k")) (CScalarInt 1))]);
+     CSetGlobalVar (s "result") (CReadVar (s "acc"));                     (* 42 + 42 + 3 = 87 *)
+     CSetGlobalVar (s "y") (CReadVar (s "x"));                            (* the local: 42 *)
+     CSetGlobalVar (s "z") (CReadVar (s "nope"))])].
+Example C01_compile_correct_f5_instance :
+  match Compiler.compile f5_example CompilerProofs.default_options, eval_program 1500 f5_example [] with
+  | Compiler.COk B, PObs o =>
+      C01SimDefs5.in_f5 f5_example = true /\ C01SimDefs4.in_f4 f5_example = false /\
+      C01SimDefs5.depth_ok5 (C01SimDefs.main_cards f5_example) = true /\
+      (N.of_nat (List.length (Compiler.p_ids B)) <? Bits.two32)%N = true /\
+      (N.of_nat (List.length (Compiler.p_bytecode B)) <? 2147483648)%N = true /\
+      (ob_kind o, ob_globals o) =
+        (KErr EVarNotFound, [(s "pooh", TrInt 42); (s "x", TrInt 7); (s "result", TrInt 87); (s "y", TrInt 42)]) /\
+      let r := Vm.run no_floats Vm.Debug 2000 (C15Link.to_vm B) Vm.fresh_state in
+      C01SimDefs.vm_kind (fst r) = Some (ob_kind o) /\
+      map (fun n => option_map C01SimDefs.vm_tree (Vm.read_var_by_name (C15Link.to_vm B) (snd r) n))
+          [s "pooh"; s "x"; s "result"; s "y"; s "z"; s "i"; s "acc"]
+      = map (fun n => assoc n (ob_globals o)) [s "pooh"; s "x"; s "result"; s "y"; s "z"; s "i"; s "acc"]
+  | _, _ => False
+  end.
+Proof. vm_compute. repeat split; reflexivity. Qed.
+
+(* ... and a run that reaches the end of main, where the three locals are popped before Exit *)
+Definition f5_example_ok : module :=
+  prog [("main", fn []
+    [CSetVar (s "a") (CScalarInt 3);
+     CSetVar (s "b") (CBin BMul (CReadVar (s "a")) (CReadVar (s "a")));
+     CSetVar (s "a") (CBin BAdd (CReadVar (s "a")) (CReadVar (s "b")));
+     CSetVar (s "c") (CBin BLess (CReadVar (s "b")) (CReadVar (s "a")));
+     CBin BIfTrue (CReadVar (s "c")) (CSetGlobalVar (s "out") (CBin BSub (CReadVar (s "a")) (CReadVar (s "b"))));
+     CSetGlobalVar (s "a") (CReadVar (s "a"))])].
+Example C01_compile_correct_f5_instance_ok :
+  match Compiler.compile f5_example_ok CompilerProofs.default_options, eval_program 300 f5_example_ok [] with
+  | Compiler.COk B, PObs o =>
+      C01SimDefs5.in_f5 f5_example_ok = true /\
+      C01SimDefs5.depth_ok5 (C01SimDefs.main_cards f5_example_ok) = true /\
+      (ob_kind o, ob_globals o) = (KOk, [(s "out", TrInt 3); (s "a", TrInt 12)]) /\
+      let r := Vm.run no_floats Vm.Release 200 (C15Link.to_vm B) Vm.fresh_state in
+      C01SimDefs.vm_kind (fst r) = Some (ob_kind o) /\
+      Stacks.vcount (Vm.st_stack (snd r)) = 0 /\
+      map (fun n => option_map C01SimDefs.vm_tree (Vm.read_var_by_name (C15Link.to_vm B) (snd r) n))
+          [s "out"; s "a"; s "b"; s "c"]
+      = map (fun n => assoc n (ob_globals o)) [s "out"; s "a"; s "b"; s "c"]
+  | _, _ => False
+  end.
+Proof. vm_compute. repeat split; reflexivity. Qed.
+
+(* ==== fragment F6r: F5 plus  Repeat n body  without a loop variable ====
+   F5 plus the card  Repeat None n body  (C01SimDefs6.in_f6): the count n is any expression of the
+   fragment, evaluated once; the body is a statement of the fragment (assignments, If*, While,
+   Composite, Repeat, nested at will) that may assign the locals of main but declares none.  The
+   compiler keeps the count and the round counter in two hidden locals above the locals of main for
+   the time of the loop (two Pops behind it); RefSem's repeat clause is the other side.  A count that
+   is not an integer (nil) or not positive gives zero rounds on both sides.
+   PARTIAL with respect to the planned fragment F6 (hence the name): NOT covered are the loop
+   variable (`Repeat (Some i) n body`) and a body that is a scope with declarations of its own, and
+   ForEach.  The gap: RefSem allocates a fresh cell for the loop variable (and for every local of the
+   body) in every round and never frees cells, the VM reuses the same slots; the invariant of F5
+   "cell i <-> slot i" (C01SimRef5.st5 / C01SimRef6.st6) has to become a map from the visible locals
+   to cells before those programs can be simulated.  The differential check C01Check covers them. *)
+From Cao Require C01SimDefs6 C01SimF6.
+
+Theorem C01_compile_correct_f6_partial :
+  forall (F : Vm.fops) (bld : Vm.build) (M : module) (B : Compiler.compiled) (fuel : nat) (host : list str) (o : obs),
+    C01SimDefs6.in_f6 M = true ->
+    C01SimDefs6.depth_ok6 (C01SimDefs.main_cards M) = true ->
+    Compiler.compile M CompilerProofs.default_options = Compiler.COk B ->
+    (N.of_nat (List.length (Compiler.p_ids B)) < Bits.two32)%N ->
+    (N.of_nat (List.length (Compiler.p_bytecode B)) < 2147483648)%N ->
+    eval_program fuel M host = PObs o ->
+    exists N0 : nat, forall budget : nat, N0 <= budget ->
+      let r := Vm.run F bld budget (C15Link.to_vm B) Vm.fresh_state in
+      C01SimDefs.vm_kind (fst r) = Some (ob_kind o) /\
+      forall n, C01SimDefs.no_collision (C01SimDefs6.main_gnames6 [] (C01SimDefs.main_cards M)) n ->
+        option_map C01SimDefs.vm_tree (Vm.read_var_by_name (C15Link.to_vm B) (snd r) n) = assoc n (ob_globals o).
+Proof. exact C01SimF6.compile_correct_f6. Qed.
+Print Assumptions C01_compile_correct_f6_partial.
+
+(* an instance: a count computed from a local that the body then changes (the count does not follow),
+   a Repeat inside a Repeat with counts 3, 2, 1, 0, -1, a nil count, a Repeat inside a While, and a
+   read of an unassigned global inside a conditional inside a Repeat body (the run ends there, with
+   the hidden locals still on the stack) *)
+Definition f6_example : module :=
+  prog [("main", fn []
+    [CSetVar (s "n") (CScalarInt 4);
+     CSetVar (s "acc") (CScalarInt 0);
+     CSetGlobalVar (s "rounds") (CScalarInt 0);
+     CRepeat None (CBin BAdd (CReadVar (s "n")) (CScalarInt 1))            (* 5 rounds; n changes inside, the count does not *)
+       (CComposite (s "")
+          [CSetVar (s "n") (CBin BSub (CReadVar (s "n")) (CScalarInt 1));
+           CRepeat None (CReadVar (s "n"))                                   (* 3, 2, 1, 0, -1 rounds *)
+             (CSetVar (s "acc") (CBin BAdd (CReadVar (s "acc")) (CScalarInt 10)));
+           CSetGlobalVar (s "rounds") (CBin BAdd (CReadVar (s "rounds")) (CScalarInt 1))]);
+     CSetGlobalVar (s "acc") (CReadVar (s "acc"));
+     CSetGlobalVar (s "n") (CReadVar (s "n"));
+     CRepeat None (CScalarNil) (CSetGlobalVar (s "never") (CScalarInt 1));
+     CSetVar (s "k") (CScalarInt 0);
+     CBin BWhile (CBin BLess (CReadVar (s "k")) (CScalarInt 2))
+       (CComposite (s "")
+          [CRepeat None (CScalarInt 3) (CSetGlobalVar (s "w") (CBin BAdd (CReadVar (s "acc")) (CReadVar (s "k"))));
+           CSetVar (s "k") (CBin BAdd (CReadVar (s "k")) (CScalarInt 1))]);
+     CRepeat None (CScalarInt 2)
+       (CBin BIfTrue (CReadVar (s "rounds"))
+          (CComposite (s "") [CSetGlobalVar (s "rounds") (CScalarInt 0); CSetGlobalVar (s "z") (CReadVar (s "nope"))]))])].
+Example C01_compile_correct_f6_partial_instance :
+  match Compiler.compile f6_example CompilerProofs.default_options, eval_program 3000 f6_example [] with
+  | Compiler.COk B, PObs o =>
+      C01SimDefs6.in_f6 f6_example = true /\ C01SimDefs5.in_f5 f6_example = false /\
+      C01SimDefs6.depth_ok6 (C01SimDefs.main_cards f6_example) = true /\
+      (N.of_nat (List.length (Compiler.p_ids B)) <? Bits.two32)%N = true /\
+      (N.of_nat (List.length (Compiler.p_bytecode B)) <? 2147483648)%N = true /\
+      (ob_kind o, ob_globals o) =
+        (KErr EVarNotFound, [(s "rounds", TrInt 0); (s "acc", TrInt 60); (s "n", TrInt (-1)); (s "w", TrInt 61)]) /\
+      let r := Vm.run no_floats Vm.Debug 3000 (C15Link.to_vm B) Vm.fresh_state in
+      C01SimDefs.vm_kind (fst r) = Some (ob_kind o) /\
+      map (fun n => option_map C01SimDefs.vm_tree (Vm.read_var_by_name (C15Link.to_vm B) (snd r) n))
+          [s "rounds"; s "acc"; s "n"; s "never"; s "w"; s "z"; s "k"]
+      = map (fun n => assoc n (ob_globals o)) [s "rounds"; s "acc"; s "n"; s "never"; s "w"; s "z"; s "k"]
+  | _, _ => False
+  end.
+Proof. vm_compute. repeat split; reflexivity. Qed.
+
+(* ... and a run that reaches the end of main: 3! by a Repeat whose body assigns two locals; the
+   hidden locals and the locals of main are popped before Exit *)
+Definition f6_example_ok : module :=
+  prog [("main", fn []
+    [CSetVar (s "n") (CScalarInt 3);
+     CSetVar (s "f") (CScalarInt 1);
+     CRepeat None (CReadVar (s "n"))
+       (CComposite (s "")
+          [CSetVar (s "f") (CBin BMul (CReadVar (s "f")) (CReadVar (s "n")));
+           CSetVar (s "n") (CBin BSub (CReadVar (s "n")) (CScalarInt 1))]);
+     CSetGlobalVar (s "fact") (CReadVar (s "f"));
+     CSetGlobalVar (s "n") (CReadVar (s "n"))])].
+Example C01_compile_correct_f6_partial_instance_ok :
+  match Compiler.compile f6_example_ok CompilerProofs.default_options, eval_program 300 f6_example_ok [] with
+  | Compiler.COk B, PObs o =>
+      C01SimDefs6.in_f6 f6_example_ok = true /\
+      C01SimDefs6.depth_ok6 (C01SimDefs.main_cards f6_example_ok) = true /\
+      (ob_kind o, ob_globals o) = (KOk, [(s "fact", TrInt 6); (s "n", TrInt 0)]) /\
+      let r := Vm.run no_floats Vm.Release 200 (C15Link.to_vm B) Vm.fresh_state in
+      C01SimDefs.vm_kind (fst r) = Some (ob_kind o) /\
+      Stacks.vcount (Vm.st_stack (snd r)) = 0 /\
+      map (fun n => option_map C01SimDefs.vm_tree (Vm.read_var_by_name (C15Link.to_vm B) (snd r) n))
+          [s "fact"; s "n"; s "f"]
+      = map (fun n => assoc n (ob_globals o)) [s "fact"; s "n"; s "f"]
+  | _, _ => False
+  end.
+Proof. vm_compute. repeat split; reflexivity. Qed.
+
+(* the six fragments are nested, and every program of them is in the class property C01 quantifies
    over: the theorems above are instances of compile_correct, not statements about other programs *)
 From Cao Require C01SimScope.
 Theorem C01_fragments_well_scoped :
@@ -591,6 +789,8 @@ Theorem C01_fragments_well_scoped :
     (C01SimDefs.in_f1 M = true -> C01SimDefs2.in_f2 M = true) /\
     (C01SimDefs2.in_f2 M = true -> C01SimDefs3.in_f3 M = true) /\
     (C01SimDefs3.in_f3 M = true -> C01SimDefs4.in_f4 M = true) /\
-    (C01SimDefs4.in_f4 M = true -> well_scoped M = true).
+    (C01SimDefs4.in_f4 M = true -> C01SimDefs5.in_f5 M = true) /\
+    (C01SimDefs5.in_f5 M = true -> C01SimDefs6.in_f6 M = true) /\
+    (C01SimDefs6.in_f6 M = true -> well_scoped M = true).
 Proof. exact C01SimScope.fragments_well_scoped. Qed.
 Print Assumptions C01_fragments_well_scoped.
